@@ -50,6 +50,7 @@ type Exec struct {
 	oblPrefix  string
 	wholeHavoc map[string]bool
 	noPrune     int
+	bits        map[int]*bitInfo
 	witness     []*Term
 	noWitness   int
 	caseHint    *caseHint
@@ -468,6 +469,9 @@ func (e *Exec) enterLoop(fr *Frame, li *loopInfo, pre *State) *State {
 		}
 		if mod.allocs {
 			e.bumpAlloc(st)
+		}
+		for pk := range mod.pkgs {
+			e.havocPkg(st, pk)
 		}
 	}
 	for a := range mod.cells {
@@ -952,6 +956,11 @@ func (e *Exec) indexAddr(fr *Frame, st *State, x *ssa.IndexAddr) {
 			fr.vals[x] = Val{P: &Ptr{kind: pElem, obj: xv.T, idx: iv, elemT: at.Elem()}}
 			return
 		}
+		if isStructT(at.Elem()) && xv.T != nil {
+			// array of structs on the heap: elements are objects elem(ref, i), as for slices of structs
+			fr.vals[x] = Val{T: e.elemRef(xv.T, iv)}
+			return
+		}
 		e.fail("IndexAddr on pointer to array of aggregates")
 	default:
 		e.fail("IndexAddr on %s", x.X.Type())
@@ -1018,7 +1027,7 @@ func (e *Exec) sliceInstr(fr *Frame, st *State, x *ssa.Slice) {
 		if xv.T == nil {
 			e.fail("slicing a by-value local array (escape analysis gap) in %s", fr.fn)
 		}
-		if !memArrayT(u.Elem()) {
+		if !memArrayT(u.Elem()) && !isStructT(at.Elem()) {
 			e.fail("slicing an array of aggregates")
 		}
 		fr.vals[x] = Val{T: e.tm.MkSlice(xv.T, lo, c.Sub(hi, lo), c.Sub(mx, lo))}
@@ -1166,8 +1175,8 @@ func (e *Exec) strSub(s, lo, hi *Term) *Term {
 	if !t.bound {
 		c.AddFact(t, c.Eq(c.App("str.len", "Int", t), c.Sub(hi, lo)))
 		j := c.BoundVar("j", "Int")
-		c.AddFact(t, c.Forall([]*Term{j}, c.Implies(c.And(c.Le(c.Int(0), j), c.Lt(j, c.Sub(hi, lo))),
-			c.Eq(c.App("str.at", "Int", t, j), c.App("str.at", "Int", s, c.Add(lo, j))))))
+		c.AddFact(t, c.ForallPat([]*Term{j}, c.Implies(c.And(c.Le(c.Int(0), j), c.Lt(j, c.Sub(hi, lo))),
+			c.Eq(c.App("str.at", "Int", t, j), c.App("str.at", "Int", s, c.Add(lo, j)))), c.App("str.at", "Int", t, j)))
 	}
 	return t
 }
